@@ -222,6 +222,23 @@ theorem unV_safe (env : Env) (i : Instr) (a : Val) (t : Ty) (hwa : WF a) (_ : li
         simp only [Option.map_some]
         cases Spec.encodeM y.1 <;> simp
     · simp at h
+  · -- UNPACK
+    rename_i t'
+    simp only [unTy, unpackTy] at h
+    split at h
+    · rename_i hb
+      obtain ⟨hbt, hu⟩ := hb
+      obtain ⟨b, rfl⟩ := canon_bytes hwa (hta.trans hbt)
+      simp only [Spec.unV, Spec.unpackV, hu, Bool.not_true, Bool.false_eq_true, if_false]
+      split
+      · split
+        · rename_i v hv
+          obtain ⟨d, _, hd⟩ := Option.bind_eq_some_iff.mp hv
+          have := (readVal_wf env.readTimestamp Mode.strict t' hu d v hd).2
+          simpa [Res.Safe, litOk] using this
+        · simp [Res.Safe, litOk]
+      · simp [Res.Safe, litOk]
+    · simp at h
 
 section
 variable (env : Env) (st : List Val) (tr : TRes) (hw : StackWF st) (hg : GoodStack st)
@@ -397,5 +414,8 @@ theorem step_safe (env : Env) (i : Instr) (st : List Val) (tr : TRes) (hw : Stac
   case PACK =>
     exact safe_unop env st tr hw hg .PACK (Spec.unV env .PACK) (unTy .PACK) (fun _ _ => rfl) rfl
       (fun _ _ => rfl) (unV_safe env .PACK) hty
+  case UNPACK t =>
+    exact safe_unop env st tr hw hg (.UNPACK t) (Spec.unV env (.UNPACK t)) (unTy (.UNPACK t)) (fun _ _ => rfl) rfl
+      (fun _ _ => rfl) (unV_safe env (.UNPACK t)) hty
 
 end Interp
